@@ -49,6 +49,8 @@ type c17Tsm struct {
 	regs    map[uint64][]byte
 	serial  int
 	ops     []c17Op
+	// fault injection (harness-only cases): the next digest write reports an error, after or without extending the register
+	faultDigest string // "" | "after" | "before"
 }
 
 var _ configfsi.Client = (*c17Tsm)(nil)
@@ -221,8 +223,16 @@ func (t *c17Tsm) WriteFile(name string, contents []byte) error {
 		if len(data) != 48 {
 			return errors.New("c17: EINVAL")
 		}
+		if t.faultDigest == "before" {
+			t.faultDigest = ""
+			return errors.New("c17: EIO (nothing extended)")
+		}
 		n := sha512.Sum384(append(append([]byte{}, t.reg(j)...), data...))
 		t.regs[j] = n[:]
+		if t.faultDigest == "after" {
+			t.faultDigest = ""
+			return errors.New("c17: EIO (reported after the register was extended)")
+		}
 		return nil
 	}
 	return os.ErrPermission
@@ -515,7 +525,8 @@ var c17Scenarios = []string{"none", "bound", "junk", "other"}
 
 func c17(r *hx.Run) {
 	rng := r.Rng(17)
-	idxs := []int{-1 << 31, -1, 0, 1, 2, 3, 4, 5, 1<<31 - 1}
+	// incl. indexes whose low 32 / low 8 bits are a valid index (a narrowing conversion must not let them through)
+	idxs := []int{-1 << 63, -1<<32 + 1, -1 << 31, -256, -1, 0, 1, 2, 3, 4, 5, 255, 256, 258, 65536, 1<<31 - 1, 1 << 32, 1<<32 + 3, 1<<63 - 1}
 	dlens := []int{0, 1, 47, 48, 49, 64}
 	// the four algorithms of the design + SHA3-384 (available, 48-byte output: only the algorithm check rejects it)
 	algs := []crypto.Hash{crypto.SHA384, crypto.SHA256, crypto.SHA512, 0, crypto.SHA3_384}
@@ -635,6 +646,55 @@ func c17(r *hx.Run) {
 			}
 		}
 		c17RunCase(r, pre, init, reqs, "random", "pre:random")
+	}
+	// (d) a TSM that reports an error on the digest write of a VALID request (after or without extending the register): still
+	// exactly one digest write of exactly the requested digest, and the error is returned — no silent repetition (harness-only)
+	for _, mode := range []string{"after", "before"} {
+		for idx := 0; idx < 4; idx++ {
+			for _, viaLog := range []bool{false, true} {
+				for _, bound := range []bool{false, true} {
+					t := newC17Tsm()
+					if bound {
+						t.entries[fmt.Sprintf("rtmr%d-pre", idx)] = &c17Entry{name: fmt.Sprintf("rtmr%d-pre", idx), isDir: true, index: []byte(fmt.Sprintf("%d\n", idx)), readable: true}
+					}
+					t.faultDigest = mode
+					d := hx.RandBytes(rng, 48)
+					l := hx.RandBytes(rng, 33)
+					want := d
+					var err error
+					res, stack := hx.Guard(func() string {
+						if viaLog {
+							h := sha512.Sum384(l)
+							want = h[:]
+							err = rtmr.ExtendEventLogClient(t, idx, crypto.SHA384, l)
+						} else {
+							err = rtmr.ExtendDigestClient(t, idx, d)
+						}
+						return ""
+					})
+					nd, wrong := 0, false
+					for _, op := range t.ops {
+						if op.kind == "wf" && op.attr == "digest" {
+							nd++
+							wrong = wrong || !bytes.Equal(op.data, want)
+						}
+					}
+					obs := fmt.Sprintf("digest-writes=%d err=%d", nd, hx.B(err != nil))
+					fail := ""
+					switch {
+					case res == "panic":
+						fail = "crash: " + strings.SplitN(stack, "\n", 2)[0]
+					case nd != 1:
+						fail = fmt.Sprintf("a valid request whose digest write the TSM answered with an error performed %d digest writes, not exactly one", nd)
+					case wrong:
+						fail = "the digest written is not the requested digest"
+					case err == nil:
+						fail = "the TSM reported an error on the digest write but the request returned success"
+					}
+					r.Emit(fmt.Sprintf("# C17.fault mode=%s idx=%d log=%d bound=%d", mode, idx, hx.B(viaLog), hx.B(bound)), obs, fail, fmt.Sprintf("fault|%s|%d|%v|%v", mode, idx, viaLog, bound), true, "fault:"+mode)
+				}
+			}
+		}
 	}
 	r.Exhaust = true
 }
